@@ -40,7 +40,7 @@ def cases(tier, seed):
             continue        # boxes one cell thick / six-digit indices: default layouts only in the quick tier
         if d["payload"] != "coded" and tier == "quick" and not c.get("deep"):
             continue
-        if len(d["fields"]) not in ((2, 3) if tier == "quick" else (1, 2, 3, 4)) and not c.get("deep"):
+        if len(d["fields"]) not in ((2, 3) if tier == "quick" else (1, 2, 3, 4)) and not c.get("deep") and not (c.get("names_case") and d["ndims"] == 3):
             continue
         lay = d["layout"]
         dev = c.get("devlevel")
